@@ -87,12 +87,30 @@ def build(case):
         jpath = path[:-4] + ".json"
         with open(jpath, "w", encoding="utf-8") as fp:
             json.dump(doc, fp)
+        stale_path = None
+        hed_cols = [c for c, body in doc.items() if isinstance(body, dict) and "HED" in body]
+        if hed_cols and case.get("spacing", 0) != 1:
+            # a list of sidecar files: an earlier file holds an older entry of one column - more categories, or a value
+            # template where the later file has categories; the later file's entry replaces it as a whole
+            c0 = hed_cols[0]
+            older = {"HED": {"zzz-unknown": "Blue", "n/a-like": "Green", "left": "Triangle"}} \
+                if isinstance(doc[c0]["HED"], dict) else {"HED": {"3": "Blue", "zzz-unknown": "Green"}}
+            stale_path = path[:-4] + "_older.json"
+            with open(stale_path, "w", encoding="utf-8") as fp:
+                json.dump({c0: older, "stale_only": {"HED": {"q": "Square"}}}, fp)
         try:
-            tab = TabularInput(path, sidecar=jpath)       # both given as file names
-            sidecar = tab._sidecar
+            if stale_path:
+                sidecar = Sidecar([stale_path, jpath], name="sc")
+                tab = TabularInput(path, sidecar=sidecar)
+                doc = dict(doc, stale_only={"HED": {"q": "Square"}})      # what the two files amount to
+            else:
+                tab = TabularInput(path, sidecar=jpath)       # both given as file names
+                sidecar = tab._sidecar
         finally:
             os.unlink(path)
             os.unlink(jpath)
+            if stale_path:
+                os.unlink(stale_path)
     else:
         df = pd.DataFrame(t["rows"], columns=t["header"], dtype=str)
         tab = TabularInput(df, sidecar=sidecar, name="tab")
